@@ -315,6 +315,8 @@ func c16Shared(w *World, r *Report, uc, openM *types.Func) {
 	}
 	// open is reached only when connection == nil or connection.Closed()
 	okGuard := true
+	staleGuard := false
+	region := getRegion(fn)
 	nopen := 0
 	enumPaths(fn, nil, nil, func(in ssa.Instruction) bool { return in == openCall }, func(e pathExit) {
 		if e.Stop == nil {
@@ -323,13 +325,23 @@ func c16Shared(w *World, r *Report, uc, openM *types.Func) {
 		nopen++
 		just := false
 		for v, t := range e.State.Facts {
+			// the test must look at the shared field while the mutex is held: a test made before Lock() is
+			// stale by the time the lock is obtained (every waiting caller has already decided to dial)
 			if x, eq, ok := nilTest(v); ok && t == eq && isLoadOfField(x, connF) {
-				just = true
+				if xi, ok := x.(ssa.Instruction); ok && region[xi] {
+					just = true
+				} else {
+					staleGuard = true
+				}
 			}
 			if c, ok := v.(*ssa.Call); ok && t && c.Call.IsInvoke() && c.Call.Method.Name() == "Closed" {
 				for _, root := range provenance(c.Call.Value, provOpts{}) {
 					if isLoadOfField(root, connF) {
-						just = true
+						if region[c] {
+							just = true
+						} else {
+							staleGuard = true
+						}
 					}
 				}
 			}
@@ -338,7 +350,11 @@ func c16Shared(w *World, r *Report, uc, openM *types.Func) {
 			okGuard = false
 		}
 	})
-	inRegion := getRegion(fn)[openCall]
+	inRegion := region[openCall]
+	if !okGuard && staleGuard {
+		r.Violate("R16.3", key, w.Pos(openCall.Pos()), "the reuse test (connection == nil || connection.Closed()) is evaluated before the mutex is taken and not repeated under it: callers that arrive while no session is up all decide to dial, each replaces the shared connection/session in turn — several physical sessions instead of one, and streams opened on a session that was just replaced")
+		return
+	}
 	r.Check(okGuard && nopen > 0 && inRegion, "R16.3", key, w.Pos(openCall.Pos()), "a physical connection is opened only under connection == nil || connection.Closed(), inside the critical section",
 		"a new physical connection can be opened although a live one exists (or outside the mutex): logical connections no longer share one session")
 }
